@@ -151,6 +151,9 @@ def main():
         # ... and a sequence with a Byte column next to a String column (the general decoder, not the numeric fast path)
         corpus.append(("dataset", "bs0", (("seq", "q", (("base", "b", "B", (), ()), ("base", "s", "S", (), ())),
                                             ((200, "ab"), (7, "xyz"), (0, ""), (255, "abcd"))),)))
+        # ... and arrays whose VALUES spell the separator line (0a 44 61 74 61 3a 0a): the response is cut at the FIRST separator
+        corpus.append(("dataset", "mk0", (("base", "b", "B", (9,), (1, 10, 68, 97, 116, 97, 58, 10, 2)),
+                                            ("base", "i", "i", (5,), (5, 10, 0x44617461, 0x3A0A0000, 7)))))
         n += len(corpus)          # the corpus comes on top of the generated datasets
         while done < n and attempts < 20 * n:
             attempts += 1
